@@ -2,7 +2,7 @@ package rules
 
 func init() {
 	property(&Property{ID: "C04",
-		Rules: []string{"A4.log", "L4a", "L4b", "O2.dedup", "O2.own", "PULL.range", "O1.pipeline", "L3"},
+		Rules: []string{"A4.log", "L4a", "L4b", "O2.dedup", "O2.own", "PULL.range", "O1.pipeline", "L3", "L8", "DB.append"},
 		Explanation: "tbd",
 		Assumptions: []string{"tbd"},
 	})
